@@ -118,8 +118,12 @@ def classify_alloc(case):
 
 
 # ------------------------------------------------------------------------------------ trajectories
-def strat_runs(tier):
-    return mlmc_case(tier, with_cv=False, modes=("adaptive",), low_levels=True)
+@st.composite
+def strat_runs(draw, tier):
+    case = draw(mlmc_case(tier, with_cv=False, modes=("adaptive",), low_levels=True))
+    # one Engine object priced twice (a looser or a tighter run first): the guarantees hold for the second pricing alone
+    case["priced_before"] = draw(st.sampled_from([None, None, None, 0.4, 3.0]))
+    return case
 
 
 def body_runs(case):
@@ -162,7 +166,7 @@ def body_runs(case):
     counts = final["ledger_counts"]
     est_var = 0.0
     for l in range(L + 1):
-        f_, c_, rows_ = expected_arrays(case, led, counts, l)
+        f_, c_, rows_ = expected_arrays(case, led, counts, l, rec.get("offsets"))
         if len(rows_):
             est_var += float(np.var(f_ - c_)) / len(rows_)
     budget = 0.75 * case["rmse"] ** 2
@@ -200,7 +204,7 @@ def body_runs(case):
         alpha_used = float(crit[-1]["alpha"])
         means = []
         for l in range(L + 1):
-            f_, c_, rows_ = expected_arrays(case, led, counts, l)
+            f_, c_, rows_ = expected_arrays(case, led, counts, l, rec.get("offsets"))
             means.append(abs(float(np.mean(f_ - c_))) if len(rows_) else 0.0)
         for l in range(3, L + 1):
             means[l] = max(means[l], 0.5 * means[l - 1] / 2 ** alpha_used)
@@ -228,6 +232,7 @@ def body_runs(case):
                 out.append(Violation("C06/run/returned-before-the-optimal-sample-sizes",
                                      f"optimal {Ns.tolist()} vs simulated {Nl.tolist()}; {detail}"))
     out.append(Violation("LABEL:stopped-at-maximum-level" if stopped_on_max else "LABEL:stopped-on-bias-test"))
+    out.append(Violation("LABEL:engine-priced-before" if case.get("priced_before") else "LABEL:first-pricing"))
     added = len(passes[-1]["Nl"]) > len(passes[0]["Nl"])
     if added:
         out.append(Violation("LABEL:levels-added"))
